@@ -192,29 +192,31 @@ def run_cases(tag, imports, files, timeout=600):
         with open(os.path.join(cdir, name + '.v'), 'w') as f:
             f.write(CASES_HEADER % imports + body)
         names.append(name)
-    procs = []
     results = [None] * len(names)
     idx = 0
     running = []
     while idx < len(names) or running:
         while idx < len(names) and len(running) < NCPU:
             n = names[idx]
+            # output goes to a file: a pipe would fill up (64 KB) and stall coqc
+            outf = open(os.path.join(cdir, n + '.out'), 'w')
             p = subprocess.Popen('exec timeout %d coqc -q -w -all -Q %s Bardolph %s.v' % (timeout, COQ, n),
-                                 shell=True, cwd=cdir, stdout=subprocess.PIPE, stderr=subprocess.STDOUT, text=True, errors='replace')
-            running.append((idx, p))
+                                 shell=True, cwd=cdir, stdout=outf, stderr=subprocess.STDOUT)
+            running.append((idx, p, outf))
             idx += 1
         still = []
-        for (i, p) in running:
+        for (i, p, outf) in running:
             if p.poll() is None:
-                still.append((i, p))
+                still.append((i, p, outf))
             else:
-                out = p.stdout.read()
+                outf.close()
+                out = open(os.path.join(cdir, names[i] + '.out'), errors='replace').read()
                 results[i] = (p.returncode == 0, parse_eval_strings(out), out)
         running = still
         if running:
-            time.sleep(0.05)
+            time.sleep(0.02)
     for n in names:
-        for ext in ('.v', '.vo', '.glob', '.vok', '.vos'):
+        for ext in ('.v', '.vo', '.glob', '.vok', '.vos', '.out'):
             try:
                 os.remove(os.path.join(cdir, n + ext))
             except OSError:
@@ -357,6 +359,11 @@ def finish(ctx):
         'broken_ties': ctx.broken,
         'known_findings_reported': sorted(reported_known),
     }
+    if discharged == 0:
+        # the proof did not check: the level's own keys do not apply (schema: discharged >= 1);
+        # the exploration-style counts stand in, and the broken obligation is listed
+        cov['obligations_stated'] = cov.pop('obligations')
+        cov['discharged_count'] = cov.pop('discharged')
     cov.update(ctx.extra)
     ev = {
         'property_id': ctx.prop,
